@@ -5,6 +5,7 @@ import DarkluaModel.C05.Complete
 import DarkluaModel.C05.Compose
 import DarkluaModel.Shared.VisitorSoundHeapV
 import DarkluaModel.C05.Unrequired
+import DarkluaModel.C05.OneModule
 /-!
 # C05 — a bundle behaves like the program with its modules required normally: property theorems
 
@@ -205,7 +206,7 @@ def bundleProgram (M : String) (mods : List (String × Src)) (entry : Src) : Blo
   let call := fun k => accessorCall M (nameAt names k)
   assemble M (mods.map fun (n, src) => (n, src call)) (entry call)
 
-/-- the same sources run with a textbook `require`: a `package.loaded`-style cache keyed by the
+/- the same sources run with a textbook `require`: a `package.loaded`-style cache keyed by the
 module's name, each body wrapped in a function that runs on first use, its first value cached
 in a box (so `nil`/`false` count as loaded):
 ```lua
@@ -218,18 +219,6 @@ end
 __ref_modules["<name>"] = function() <body> end …
 <entry>
 ``` -/
-def refRequireFn : FnBody := .mk [.mk "name" none] false none none [] []
-  (.mk
-    [ .localAssign .loc [.mk "box" none] [.index (.var "__ref_loaded") (.var "name")],
-      .ifs [(.bin .eq (.var "box") .nil,
-        .mk [ .assign [.var "box"]
-                [.table [.named "value" (.paren (.call (.index (.var "__ref_modules") (.var "name")) none .tuple []))]],
-              .assign [.index (.var "__ref_loaded") (.var "name")] [.var "box"] ] none)] none ]
-    (some (.ret [.field (.var "box") "value"])))
-
-/-- the call that stands for `require` of module `n` in the reference program -/
-def refCall (n : String) : Expr := .call (.var "__ref_require") none .tuple [.str (strToBytes n)]
-
 /-- the reference program around already rewritten module bodies and entry -/
 def referenceBlocks (mods : List (String × Block)) (entry : Block) : Block :=
   match entry with
@@ -502,6 +491,113 @@ theorem bundle_refines_partial_unrequired_driver (externs : List String) (I : Bu
   bundle_refines_partial_unrequired _ driverOracle_flat externs I n hres hMv hMI hnodup hcache hentry
 
 end unrequired
+
+section onemodule
+open Sem.HeapU
+
+/-- **What remains for a required module: the call-site leaf.** In the context `bcx` (watched locals `M` ↦ cell 0
+on the left, `__ref_require` ↦ cell 2 on the right; invariant = the private objects of both preludes + the coupling
+of the two caches) the accessor call and the textbook require of `a` are related, for every closure-body relation. -/
+def LeafSound (M a : String) (BL BR : Block) : Prop :=
+  ∀ Q, QRefl Q → SoundE Q (bcx M a BL BR) (D1 M) (accessorCall M a) (refCall a)
+
+/-- **`bundle_refines_of_leaf`** — ONE bundled module `a` (arbitrary source `B`), REQUIRED anywhere in an arbitrary
+entry source (top level, inside closures, loops, …; any number of times): IF the call-site leaf is sound
+(`LeafSound`), the bundle and the reference program have the same outcome at every level ≥ 1.
+Everything else is proved here with `Sem.HeapU`: both preludes run concretely and only extend the heap, the new
+objects become private (`bump`), the context with the invariant is entered (`rebase`, `establish_I`), the two
+top-level environments satisfy `EnvOK` with the watched bindings, the two programs are the two images of one source
+(`subB_vr`), `fundB`, `observe_of_soundB`. -/
+theorem bundle_refines_of_leaf {N : NumOps} (ρ : ExtOracle N) (hρ : OracleFlat ρ) (externs : List String)
+    (I : BundleInput) (a : String) (B : Block) (n : Nat)
+    (hmods : I.mods = [(a, B)])
+    (hres : ∀ lit nm, I.res lit = some nm → nm = a)
+    (hMv : I.M ≠ "v") (hMI : I.M ≠ implName)
+    (hMr : I.M ≠ "__ref_require" ∧ I.M ≠ "__ref_modules" ∧ I.M ≠ "__ref_loaded")
+    (hac : bytesOf a ≠ bytesOf "cache")
+    (hentry : NoRefB (D1 I.M) I.entry)
+    (hleaf : LeafSound I.M a (subB I.matcher true B) (subB I.matcher false B)) :
+    runProgram ρ (n + 1) externs I.bundle = runProgram ρ (n + 1) externs I.reference := by
+  let BL := subB I.matcher true B
+  let BR := subB I.matcher false B
+  let cx := bcx I.M a BL BR
+  -- the two programs are the two images of the entry source
+  have hleaf' : ∀ e p, I.matcher e = some p → NoRefE (D1 I.M) e → VR cx (D1 I.M) (.e p.1) (.e p.2) (D1 I.M) := by
+    intro e p hm _
+    simp only [BundleInput.matcher] at hm
+    split at hm
+    · simp only [Option.map_eq_some_iff] at hm
+      obtain ⟨nm, hr, hp⟩ := hm
+      have := hres _ nm hr
+      subst this
+      subst hp
+      exact .genE hleaf
+    · cases hm
+  have hvr := subB_vr (cx := cx) hleaf' I.entry hentry
+  -- the preludes
+  obtain ⟨hc0, ht0, hf0⟩ := init_sizes (N := N) externs
+  have hlen0 : (initState externs : State N).cells.length = 0 := by rw [hc0]; rfl
+  obtain ⟨infos, σB, _, hexB, _, hfold⟩ := prelude_establishes (callClosure ρ (n + 1)) ρ n ⟨[], []⟩ I.M [(a, BL)]
+    (initState externs) (by simp) hMv hMI (by simp) (by intro nb hnb; simp at hnb; subst hnb; exact hac)
+  have hσB : σB = postL I.M a BL externs := by
+    rw [hfold]; simp [postL, hlen0, ht0]
+  subst hσB
+  have hexR := exec_refPrelude_one (callClosure ρ (n + 1)) ρ n refRequireFn (a, BR) (initState externs)
+  -- related states in the context with the invariant
+  have hs0 : SRel (VQ Cx.none) Cx.none initRel (initState externs : State N) (initState externs) :=
+    SRel.init (VQ Cx.none) externs trivial
+  have hs1 := ((hs0.extLeft (postL_ext I.M a BL externs)).extRight (postR_ext a BR externs)).bump
+  have hs : SRel (VQ cx) cx (initRel.bump (postL I.M a BL externs) (postR a BR externs)) (postL I.M a BL externs)
+      (postR a BR externs) :=
+    hs1.rebase (fun _ _ h => h) (establish_I I.M a BL BR externs (fun h => hac h.symm))
+  have he : EnvOK cx (initRel.bump (postL I.M a BL externs) (postR a BR externs)) (D1 I.M)
+      (⟨[(I.M, 0)], []⟩ : Env N) ⟨envR3, []⟩ := by
+    refine ⟨.nil, fun nm hnm => ?_, fun nm hnm => ?_, fun nm hnm => ?_⟩
+    · have h0 : ¬ I.M = nm := fun e => hnm (by simp [D1, e])
+      have h1 : ¬ "__ref_require" = nm := fun e => hnm (by simp [D1, ← e])
+      have h2 : ¬ "__ref_modules" = nm := fun e => hnm (by simp [D1, ← e])
+      have h3 : ¬ "__ref_loaded" = nm := fun e => hnm (by simp [D1, ← e])
+      simp [lookupAssoc, envR3, h0, h1, h2, h3, OptRel]
+    · simp only [cx, bcx, List.mem_cons, List.mem_nil_iff, or_false] at hnm
+      rcases hnm with h | h <;> subst h <;> simp [D1]
+    · have hw : nm = I.M ∨ nm = "__ref_require" := by simpa [D1] using hnm
+      have hr1 : ¬ "__ref_require" = I.M := fun e => hMr.1 e.symm
+      have hr2 : ¬ "__ref_modules" = I.M := fun e => hMr.2.1 e.symm
+      have hr3 : ¬ "__ref_loaded" = I.M := fun e => hMr.2.2 e.symm
+      rcases hw with h | h <;> subst h
+      · simp [cx, bcx, lookupAssoc, envR3, hr1, hr2, hr3]
+      · simp [cx, bcx, lookupAssoc, envR3, hMr.1]
+  have hobs := observe_of_soundB (fundB hvr) ρ hρ (fun _ => rfl) (n + 1) hs he
+  -- put the programs in `prelude ++ rest` form
+  simp only [BundleInput.bundle, BundleInput.reference, hmods, List.map_cons, List.map_nil]
+  cases hsb : subB I.matcher true I.entry with
+  | mk stB lastB =>
+    cases hsr : subB I.matcher false I.entry with
+    | mk stR lastR =>
+      rw [hsb, hsr] at hobs
+      have hexB' : execSs (callClosure ρ (n + 1)) ρ (n + 1) ⟨[], []⟩ (prelude I.M [(a, BL)]) (initState externs)
+          = .ok (.next ⟨[(I.M, 0)], []⟩) (postL I.M a BL externs) := by
+        rw [hexB, hlen0]
+      have h1 : execB (callClosure ρ (n + 1)) ρ (n + 1) ⟨[], []⟩ (assemble I.M [(a, BL)] (.mk stB lastB)) (initState externs)
+          = execB (callClosure ρ (n + 1)) ρ (n + 1) ⟨[(I.M, 0)], []⟩ (.mk stB lastB) (postL I.M a BL externs) := by
+        simp only [assemble]
+        exact execB_append_next _ ρ _ _ stB lastB _ _ _ _ hexB'
+      have hexR' : execSs (callClosure ρ (n + 1)) ρ (n + 1) ⟨[], []⟩
+          ([refLa, .localFn .loc "__ref_require" refRequireFn] ++ [refAssign (a, BR)]) (initState externs)
+          = .ok (.next ⟨envR3, []⟩) (postR a BR externs) := by
+        rw [hexR, hlen0]; rfl
+      have h2 : execB (callClosure ρ (n + 1)) ρ (n + 1) ⟨[], []⟩ (referenceBlocks [(a, BR)] (.mk stR lastR)) (initState externs)
+          = execB (callClosure ρ (n + 1)) ρ (n + 1) ⟨envR3, []⟩ (.mk stR lastR) (postR a BR externs) := by
+        rw [referenceBlocks_eq]
+        exact execB_append_next _ ρ _ _ stR lastR _ _ _ _ hexR'
+      simp only [runProgram, runChunk_eq_wrapCtl]
+      rw [h1, h2]
+      rcases hobs with ⟨h, _⟩ | ⟨h, _⟩ | h
+      · cases h
+      · cases h
+      · exact h.symm
+
+end onemodule
 
 /-- **`bundle_refines_partial`** (one module): the statements the bundler puts in front of the entry
 execute to exactly this: the entry's scope gains the modules identifier `M` and nothing else (no
